@@ -20,6 +20,7 @@ import KadDHT.Driver.C11
 import KadDHT.Driver.C12
 import KadDHT.Driver.C05
 import KadDHT.Driver.C20
+import KadDHT.Driver.C17
 open KadDHT.Driver
 
 def main (args : List String) : IO UInt32 := do
@@ -27,6 +28,8 @@ def main (args : List String) : IO UInt32 := do
   | ["C18"] => runPure C18.handle; return 0
   | ["C18v"] => runPure C18v.handle; return 0
   | ["C19"] => runLoop C19.step {}; return 0
+  | ["C17"] => runLoop C17.step {}; return 0
+  | ["C17v"] => runLoop C17.verdict {}; return 0
   | ["C20"] => runLoop C20.step {}; return 0
   | ["C20v"] => runLoop C20.verdict {}; return 0
   | ["C05"] => runLoop C05.step {}; return 0
